@@ -83,6 +83,16 @@ func main() {
 	genFuncs := flag.Bool("gen-functions", false, "maintenance: write tables/functions.json (the function inventory renames are resolved against) from -repo")
 	flag.Parse()
 	tablesDir = filepath.Join(*verif, "tables")
+	if os.Getenv("ZNCHECK_DUMP_NILFIELDS") != "" {
+		c := &Ctx{Repo: *repo, Verif: *verif, Tier: "quick", R: newReport("C00", "quick")}
+		u := c.Core()
+		u.buildSSA()
+		dumpNilFields(u, corePkgs)
+		for _, d := range droppedErrors(u, []string{"pkg/exec", "pkg/value", "pkg/runtime", "pkg/common", "stdlib/file", "stdlib/json"}) {
+			fmt.Printf("DROPPED %s %s %s\n", d.Fn, d.Field, d.Pos)
+		}
+		return
+	}
 	if os.Getenv("ZNCHECK_DUMP_MUSTCALL") != "" {
 		c := &Ctx{Repo: *repo, Verif: *verif, Tier: "quick", R: newReport("C00", "quick")}
 		u := c.Core()
@@ -221,12 +231,19 @@ func runAll(repo, verif, tier string) int {
 // borrowRule re-runs another property's checker on the already loaded universes and adopts the obligations of
 // one of its rules under a rule name of the current property (the same structural fact is a necessary
 // condition of both properties)
+var borrowCache = map[string][]Obligation{}
+
 func borrowRule(c *Ctx, fromProp, fromRule, asRule string) {
-	sub := &Ctx{Repo: c.Repo, Verif: c.Verif, Tier: c.Tier, core: c.core, server: c.server, R: newReport(fromProp, c.Tier)}
-	props[fromProp](sub)
-	c.core, c.server = sub.core, sub.server
+	obls, cached := borrowCache[c.Repo+"|"+fromProp]
+	if !cached {
+		sub := &Ctx{Repo: c.Repo, Verif: c.Verif, Tier: c.Tier, core: c.core, server: c.server, R: newReport(fromProp, c.Tier)}
+		props[fromProp](sub)
+		c.core, c.server = sub.core, sub.server
+		obls = sub.R.Obls
+		borrowCache[c.Repo+"|"+fromProp] = obls
+	}
 	n := 0
-	for _, o := range sub.R.Obls {
+	for _, o := range obls {
 		if o.Rule == fromRule {
 			c.R.add(asRule, o.Construct, o.Status, o.Pos, o.Detail)
 			n++
@@ -260,6 +277,9 @@ func runMustCall(c *Ctx, prop string) {
 		}
 	}
 	ruleMustCallEntries(c, u, prop, core)
+	if prop != "C05" && prop != "C17" { // these two have their own error-propagation rules
+		ruleErrDrop(c, u, prop)
+	}
 	if len(server) > 0 {
 		su := c.Server()
 		su.buildSSA()
